@@ -309,6 +309,12 @@ mech("empty-null-on-timestamp-decodes-to-braces",
   ("C05","json/empty_null/timestamp/singular*/ctx=top/dir=req*",["contract-form-rejected"],None),
   ("C01","deliver/body/empty_null/timestamp/singular*",["handler-not-reached","client-error","request-changed","response-changed"],None)])
 
+mech("codec-names-child-type-of-another-go-package-unqualified",
+ "flatten children, oneof_config variants (and an optional message next to an unwrap map) declared in a file of ANOTHER Go package: the emitted *_flatten / *_oneof_discriminator / *_unwrap code names the child type without its package qualifier (undefined: Addr), the package does not build",
+ [("C04","codec-split/{flatten,oneof_flatten,oneof_nested,unwrap}/*/files=other-go-package",["split-differs"],"build outcome differs*"),
+  ("C05","json-split/{flatten,oneof_flatten,oneof_nested,unwrap}/*/files=other-go-package",["split-differs"],"build outcome differs*"),
+  ("C14","interchange-split/{flatten,oneof_flatten,oneof_nested,unwrap}/*/files=other-go-package",["split-differs"],"build outcome differs*")])
+
 mech("timestamp-unix-extremes",
  "UNIX_SECONDS/UNIX_MILLIS codecs mishandle pre-epoch and extreme timestamps (negative values with nanos, min/max seconds)",
  [("C04","codec/ts_unix_*@{*ts-max,*ts-min,combo*}",["roundtrip-changed","decode-own-output","canon-changed","canon-decode-error"],None),
